@@ -244,6 +244,9 @@ impl<'a, T> ChordsV2<'a, T> {
 
     fn drain_inputs(&mut self, drainq: &mut SmolQueue, active_layer: u16) {
         if self.ticks_to_ignore_chord > 0 {
+            // Releases must still be applied to the active chords. Otherwise a chord whose
+            // participants are released while chords are being ignored is never released.
+            self.drain_releases(drainq);
             drainq.extend(self.queue.drain(0..));
             return;
         }
